@@ -195,6 +195,35 @@ class Fidelity(Harness):
             S.prove("symmetric", abs(f_ba - f) <= 1e-9)
 
 
+class FidelitySelf(Harness):
+    """fidelity(T, T') == 1 where T' is the same state (same tableau here) -- 'equals 1 exactly when the two states
+    are the same', at the size where the whole two-tableau harness is out of reach (n = 3)"""
+
+    weight = 100
+
+    def input_space(self):
+        return 2 * self.n * self.n + self.n
+
+    def declare(self, S):
+        a = declare_clifford(S, self.n, tag="A", destab_iphase=False)
+        n = self.n
+        rows = O.rows_of(cells(a["table"])[n:], cells(a["phase"])[n:], n)
+        S.assume(O.commute_all(rows))
+        S.assume(O.independent(rows))
+        return a
+
+    def body(self, S, spec):
+        import graphiq.backends.stabilizer.functions.metric as metric
+
+        f = float(metric.fidelity(fresh_clifford(spec), fresh_clifford(spec)))
+        S.prove("fidelity-with-itself-is-1", abs(f - 1.0) <= 1e-9)
+        # and with one sign flipped the states are orthogonal
+        other = {"n": spec["n"], "table": spec["table"].copy(), "phase": spec["phase"].copy(), "iphase": None}
+        other["phase"][self.n] = 1 ^ other["phase"][self.n]
+        f2 = float(metric.fidelity(fresh_clifford(spec), fresh_clifford(other)))
+        S.prove("fidelity-with-sign-flipped-state-is-0", abs(f2) <= 1e-9)
+
+
 class RowSum(Harness):
     """linalg.row_sum / stabilizer.tab_row_sum sign rule vs the oracle product (Hermitian commuting rows)"""
 
@@ -281,9 +310,11 @@ def plan(tier):
     for n in ([2, 3, 4] if q else [2, 3, 4, 5, 6]):
         jobs.append((RowSum(n=n, commuting=True), {}))
         jobs.append((RowSum(n=n, commuting=False), {}))
+    jobs.append((FidelitySelf(n=1), {}))
+    jobs.append((FidelitySelf(n=2), {}))
     if q:
         # budgeted look at the next size: every explored path is solver-decided, the exploration is not complete
-        for h, budget in ((Fidelity(n=2, symmetry=False), 60), (CanonicalForm(n=3), 40)):
+        for h, budget in ((Fidelity(n=2, symmetry=False), 45), (CanonicalForm(n=3), 30), (FidelitySelf(n=3), 45)):
             h.parallel = True
             h.partial_ok = True
             jobs.append((h, {"time_budget": budget, "chunk_paths": 16, "chunk_s": 8.0}))
@@ -294,4 +325,7 @@ def plan(tier):
         h = Fidelity(n=2, symmetry=False)
         h.parallel = True
         jobs.append((h, {"time_budget": 3600, "chunk_paths": 64}))
+        h = FidelitySelf(n=3)
+        h.parallel = True
+        jobs.append((h, {"time_budget": 5400, "chunk_paths": 64}))
     return jobs
